@@ -436,6 +436,27 @@ def _hop_family_one(acc, rng, nsub, N, sizes, addrs, sens):
             sens.append((prev, 0))
         acc.count("hop_clause_spokes_and_hub")
         return _hop_family_build(acc, rng, nsub, N, sizes, addrs, sens, topo)
+    if rng.random() < 0.15:
+        # two entrances, each heading its own chain with a sensitive host at
+        # the end: the connecting tree is two separate branches from the
+        # internet
+        L1, L2 = rng.randint(2, 4), rng.randint(2, 4)
+        nsub = L1 + L2
+        N = nsub + 1
+        topo = [[1 if i == j else 0 for j in range(N)] for i in range(N)]
+        sizes = [1] * nsub
+        addrs = [(s + 1, 0) for s in range(nsub)]
+        prev = 0
+        for s in range(1, L1 + 1):
+            topo[prev][s] = topo[s][prev] = 1
+            prev = s
+        prev = 0
+        for s in range(L1 + 1, nsub + 1):
+            topo[prev][s] = topo[s][prev] = 1
+            prev = s
+        sens = [(L1, 0), (nsub, 0)]
+        acc.count("hop_clause_two_entrance_chains")
+        return _hop_family_build(acc, rng, nsub, N, sizes, addrs, sens, topo)
     if rng.random() < 0.25:
         # many sensitive subnets (6-9) behind one or two gateways that are
         # not sensitive themselves: the routes to them share the gateways
@@ -474,6 +495,24 @@ def _hop_family_one(acc, rng, nsub, N, sizes, addrs, sens):
 
 
 def _hop_family_build(acc, rng, nsub, N, sizes, addrs, sens, topo):
+    if rng.random() < 0.6:
+        # the numbering of the subnets is arbitrary: re-label them at random
+        # (children before parents, entrances with high numbers, ...)
+        perm = list(range(1, N))
+        rng.shuffle(perm)
+        new = {0: 0}
+        new.update({old: perm[old - 1] for old in range(1, N)})
+        t2 = [[0] * N for _ in range(N)]
+        for a in range(N):
+            for b in range(N):
+                t2[new[a]][new[b]] = topo[a][b]
+        s2 = [0] * nsub
+        for old in range(1, N):
+            s2[new[old] - 1] = sizes[old - 1]
+        topo, sizes = t2, s2
+        sens = [(new[a[0]], a[1]) for a in sens]
+        addrs = [(s + 1, h) for s in range(nsub) for h in range(sizes[s])]
+        acc.count("hop_clause_with_relabelled_subnets")
     hosts = {a: dict(os="linux", services=["ssh"], processes=["p"],
                      value=0.0, discovery_value=0.0, firewall={})
              for a in addrs}
